@@ -323,6 +323,15 @@ func main() {
 			inconcl++
 		}
 	}
+	if nViol > 0 {
+		byClause := map[string]int{}
+		for _, i := range keys {
+			if c := results[i]; c.res.Verdict == "violated" && matchFinding(findings, *prop, c.res) == nil {
+				byClause[c.res.Clause]++
+			}
+		}
+		fmt.Printf("  unmatched violations by clause: %v\n", byClause)
+	}
 	raceViol := 0
 	for _, r := range races {
 		if !r.Product {
